@@ -228,7 +228,8 @@ PROPS = {
                              "N1: with retain_names=True gradient(p) has p's indeterminate tuple (bounded only)"],
                 not_decided=["negative positions (bounded only)",
                              "ring-level laws of pdiff (linearity, product rule, symmetry): facts of MvPolynomial.pderiv, not re-proved"]),
-    "C09": dict(level="other", contracts=["numpoly.ndpoly.__getitem__", "numpoly.ndpoly.__array_finalize__", "numpoly.full", "numpoly.full_like"] + [
+    "C09": dict(level="other", contracts=["numpoly.ndpoly.__getitem__", "numpoly.ndpoly.__iter__", "numpoly.ndpoly.__array_finalize__", "numpoly.full",
+                                          "numpoly.full_like"] + [
                     f"numpoly.{f}" for f in ("reshape", "transpose", "repeat", "tile", "expand_dims", "diag", "diagonal", "atleast_1d",
                                              "atleast_2d", "atleast_3d", "split", "array_split", "hsplit", "vsplit", "dsplit",
                                              "concatenate", "stack", "hstack", "vstack", "dstack", "moveaxis", "where", "choose",
@@ -244,15 +245,17 @@ PROPS = {
                 "are dtype-agnostic and that moving all columns with one index map moves whole polynomial elements is bridge B6 "
                 "(trusted). where (a column-wise select with ONE condition), full / full_like, choose (numpy.choose on the whole raw "
                 "storage of the choices, selection array and mode forwarded) and broadcast_arrays (ONE numpy.broadcast_arrays call on "
-                "all raw storages in order, piece k rebuilt under operand k's names) are proved from their source as well. "
-                "Iteration, a list of choice arrays, ravel/flatten/.T and the numpy-level element "
+                "all raw storages in order, piece k rebuilt under operand k's names) are proved from their source as well, and so is "
+                "iteration (__iter__: len(self) items, item k built from the polynomial's own rows and names with every coefficient "
+                "column indexed at k along the first axis; TypeError for a 0-d array). "
+                "A list of choice arrays, ravel/flatten/.T and the numpy-level element "
                 "placement: bounded run-time contracts (conc/checks_c09.py, numpy on an object array of model polynomials).",
                 trusted_base=COMMON_TRUSTED + ["numpy movers/joins/indexing are dtype-agnostic (index map depends on shapes and arguments only)",
                                                "polynomial/aspolynomial of a raw structured array plus names decodes every field "
                                                "(proved: contracts/polynomial.py, codec under C20)",
                                                "inspect.signature of the installed numpy (asked from /venv/bin/python each run)"],
                 assumptions=["B6 (column-wise / record-wise moves with one index map move whole polynomial elements)"],
-                not_decided=["iteration (__iter__), choose with a list of choice arrays (bounded only)",
+                not_decided=["choose with a list of choice arrays (bounded only)",
                              "which element numpy places where (numpy semantics: bounded conformance)"]),
     "C10": dict(level="other", contracts=["numpoly.simple_dispatch", "numpoly.sum", "numpoly.cumsum", "numpoly.mean", "numpoly.diff",
                                           "numpoly.multiply", "numpoly._prod", "numpoly.prod"],
